@@ -30,6 +30,7 @@ COMBINATORS = {
     "core::iter::Iterator::map": ("item",),
     "core::iter::Iterator::filter": ("item",),
     "core::iter::Iterator::find": ("item",),
+    "core::iter::Iterator::find_map": ("item",),
     "core::iter::Iterator::for_each": ("item",),
     "core::iter::Iterator::fold": ("acc", "item"),
     "core::iter::Iterator::any": ("item",),
@@ -93,6 +94,9 @@ def mk_payload(x):
         return x[2][0]
     if k == "some":
         return x[1]
+    if k == "call" and isinstance(x[1], str) and core.callee_base(x[1]) == "core::slice::get" and len(x[2]) == 2:
+        # the Some payload of c.get(i) is the element c[i]
+        return ("elem", x[2][0], x[2][1])
     if k == "call" and isinstance(x[1], str) and core.callee_base(x[1]) in (
             "core::result::Result::map_err", "core::option::Option::ok_or_else", "core::option::Option::ok_or",
             "core::result::Result::or_else", "core::option::Option::filter") and x[2]:
@@ -292,6 +296,11 @@ def resolve_combinators(t, fv, depth=0):
                     return r(cr)
             if clos and base == "core::option::Option::filter":
                 return args[0]
+            if clos and base == "core::iter::Iterator::find_map":
+                # Some(x) exactly when the closure returned Some(x) for some item
+                cr = fv.closure_ret(clos[0][1])
+                if cr is not None:
+                    return r(cr)
             if clos and base == "core::option::Option::map_or":
                 cr = fv.closure_ret(clos[0][1])
                 if cr is not None:
